@@ -122,7 +122,7 @@ class CppReaderRef:
 
 class PyWriterRef:
     """state: (k, open) - k next step, open = the stream step k has received >= 1 write and is not yet ended.
-    Calls: W i (value), WS i (iterable of len 2), WE i (empty iterable), C."""
+    Calls: W i (value), WS i (iterable of len 2), WE i (empty iterable), WX i (write whose implementation raises), C."""
 
     def __init__(self, pat):
         self.pat, self.k, self.open = pat, 0, False
@@ -141,12 +141,16 @@ class PyWriterRef:
         i = call[1]
         if i >= n:
             return None
-        if (op == "W") != (self.pat[i] == "N"):
+        if op != "WX" and (op == "W") != (self.pat[i] == "N"):
             return None
         if self.open and i == self.k + 1:
             self.k, self.open = i, False       # writing the next step ends the open stream
         if i != self.k:
             return False
+        if op == "WX":
+            # the implementation's write fails: the error propagates and the step is not written (it may be retried), but an
+            # end-of-stream already emitted for the preceding stream stays emitted - that stream accepts no further items
+            return "fault"
         if op == "W":
             self.k += 1
         else:
@@ -292,8 +296,15 @@ protos = mod.protocols if hasattr(mod, "protocols") else mod
 def make_writer(name, pat):
     base = getattr(mod, name + "WriterBase")
     ns = {"_close": lambda self: None, "_end_stream": lambda self: None}
+    def mk(c):
+        def wr(self, v):
+            if getattr(self, "_verif_fail", False):
+                raise IOError("injected failure of the implementation")   # environment answer: the sink fails
+            if c == "S":
+                [x for x in v]
+        return wr
     for i, c in enumerate(pat):
-        ns["_write_s%d" % i] = (lambda self, v: [x for x in v]) if c == "S" else (lambda self, v: None)
+        ns["_write_s%d" % i] = mk(c)
     return type("W", (base,), ns)()
 
 def make_reader(name, pat, rem):
@@ -335,6 +346,12 @@ for line in sys.stdin:
                 getattr(o, "write_s%d" % i)(x for x in [1, 2])
             elif op == "E":
                 getattr(o, "write_s%d" % i)([])
+            elif op == "X":
+                o._verif_fail = True
+                try:
+                    getattr(o, "write_s%d" % i)(1 if pat[i] == "N" else [1, 2])
+                finally:
+                    o._verif_fail = False
             elif op == "R":
                 v = getattr(o, "read_s%d" % i)()
                 if pat[i] == "S":
@@ -357,7 +374,7 @@ for line in sys.stdin:
 
 
 def enc_call_py(call):
-    return {"W": "W_%d", "WS": "S_%d", "WG": "G_%d", "WE": "E_%d", "C": "C", "R": "R_%d", "N": "N_%d"}[call[0]] % call[1] if call[0] != "C" else "C"
+    return {"W": "W_%d", "WS": "S_%d", "WG": "G_%d", "WE": "E_%d", "WX": "X_%d", "C": "C", "R": "R_%d", "N": "N_%d"}[call[0]] % call[1] if call[0] != "C" else "C"
 
 
 # ---------------------------------------------------------------------------------------------- search
@@ -372,7 +389,7 @@ def alphabet(lang, kind, pat):
                 calls += [("R", i)] if c == "N" else [("RS", i), ("RB", i, 1), ("RB", i, 2)]
         else:
             if kind == "W":
-                calls += [("W", i)] if c == "N" else [("WS", i), ("WG", i), ("WE", i)]
+                calls += ([("W", i)] if c == "N" else [("WS", i), ("WG", i), ("WE", i)]) + [("WX", i)]
             else:
                 calls += [("R", i)] + ([("N", i)] if c == "S" else [])
     return calls + [("C",)]
@@ -419,6 +436,13 @@ def explore(chk, lang, ask, pat, kind, rem, max_depth, blind_depth):
                      "calls": [list(c) for c in seq[:j + 1]], "observed": obs[:j + 1]}
             if acc == "unspecified":
                 return "stop"
+            if acc == "fault":
+                if got_acc:
+                    chk.fail("%s/writer/failure-of-the-implementation-swallowed/%s" % (lang, call[0]), "%s %s: call %d %s returned normally although the implementation's write raised; calls %s" % (
+                        lang, pat, j, call, seq[:j + 1]), where)
+                    return None
+                prev_state = st
+                continue
             if acc != got_acc:
                 ctx = ""
                 la = max([x for x in range(j) if obs[x][0].startswith("ok")], default=None)   # last accepted call
